@@ -71,6 +71,9 @@ class TModel(ChanModel):
         k = op[0]
         if k == "dl":
             return self._op(w, op[2], op[1])
+        if k == "badnr":
+            # the rejected net/ calls leave nothing behind: same as the inner operation alone
+            return self._op(w, op[2], deadline)
         if k == "badw":
             # the rejected write leaves nothing behind: same as the inner operation alone
             return self._op(w, op[3], deadline)
